@@ -153,7 +153,7 @@ def classify_known(prop, f, known):
         if prop != "*" and prop not in k["properties"]:
             continue
         m = k["match"]
-        if m == "rounding-on-degenerate" and f.kind == "O":
+        if m == "rounding-on-degenerate" and f.kind == "O" and getattr(f, "k_agree", True):
             kv = parse_kv(f.detail)
             if kv.get("exactmodel") == "pass" and kv.get("degenerate") == "1" and kv.get("exactrun") == "0":
                 return k
@@ -308,11 +308,25 @@ def evaluate(prop, results, hangs, st, bound_check=False):
             elif v.startswith("internal"):
                 findings.append(Finding("I", r, "check %d (%s): %s" % (i, ch[:60], v), check=i))
             else:
-                findings.append(Finding("O", r, "check %d (%s): %s" % (i, ch[:80], v), check=i))
+                f = Finding("O", r, "check %d (%s): %s" % (i, ch[:80], v), check=i)
+                # a rounding finding (R1) can only explain the failure when the implementation did on these
+                # runs exactly what the model of the unchanged algorithm does under the same rounding
+                refs = [t.lstrip("RE").split("~")[0] for t in ch.split()[1:]]
+                refs = [t for t in refs if t.isdigit() and t in r.reqs]
+                f.k_agree = all(r.impl.get(t) == r.model.get(t) or r.impl.get(t) == "MODELONLY" for t in refs)
+                findings.append(f)
         if prop == "C16" and not invalid:
-            for i, msg in extra.c16_oracle(r):
+            bad = extra.c16_oracle(r)
+            for i, msg in bad:
                 findings.append(Finding("O", r, "check %d (%s): fail %s" % (i, r.checks[i], msg), check=i))
-                st.passed -= 0
+            npy = len([c for c in r.checks if c.startswith("pyc16")])
+            st.passed += npy - len(set(i for i, _ in bad))
+            st.check_skips -= npy
+            for k, msg in extra.c16_box_oracle(r):
+                findings.append(Finding("O", r, "run %s: %s" % (k, msg), run=k))
+        if prop in ("C17", "C18"):
+            for k, msg in extra.c17_oracle(r):
+                findings.append(Finding("O", r, "run %s: %s" % (k, msg), run=k))
         if len(st.samples) < 3 and r.reqs:
             k0 = sorted(r.reqs)[0]
             st.samples.append({"case": r.cid, "family": r.family, "request": r.reqs[k0][:400],
@@ -356,7 +370,7 @@ def structural_pairs():
 def build_cases(prop, tier, rng):
     """returns list of (label, [Case], dbg)"""
     q = tier == "quick"
-    fams_all = ["g1", "g2", "g3", "g4", "g1", "g2"]
+    fams_all = ["g1", "g2", "g3", "g4", "g1", "g2", "g10"]
     out = []
     if prop in ("C01", "C02", "C04"):
         n = 240 if q else 6000
